@@ -88,7 +88,7 @@ func buildCEA(hbh, e2e uint32, rc uint32) []byte {
 	m.NewAVP(avp.HostIPAddress, avp.Mbit, 0, datatype.Address([]byte{10, 0, 0, 2}))
 	m.NewAVP(avp.VendorID, avp.Mbit, 0, datatype.Unsigned32(99))
 	m.NewAVP(avp.ProductName, 0, 0, datatype.UTF8String("peer"))
-	if rc == 2001 {
+	if rc/1000 == 2 { // (2002 too: the only thing wrong with that CEA is its result code)
 		m.NewAVP(avp.AuthApplicationID, avp.Mbit, 0, datatype.Unsigned32(4))
 	}
 	b, _ := m.Serialize()
@@ -103,6 +103,13 @@ func gateMsg(name string, hbh uint32) []byte {
 		c := goodCER(hbh, hbh)
 		c.Items = []appItem{{T: "auth", ID: []int{0, 0, 48, 57}}}
 		return buildCER(c, dict.Default)
+	case "cer_bad_nom": // no common application, and the application AVP is not marked mandatory
+		c := goodCER(hbh, hbh)
+		c.Items = []appItem{{T: "auth", ID: []int{0, 0, 48, 57}}}
+		c.NoM = true
+		return buildCER(c, dict.Default)
+	case "cea_2002": // a CEA with a success-class result code that is not DIAMETER_SUCCESS
+		return buildCEA(hbh, hbh, 2002)
 	case "cer_noid":
 		c := goodCER(hbh, hbh)
 		c.OH = "absent"
@@ -140,6 +147,9 @@ func gateMsg(name string, hbh uint32) []byte {
 	}
 	return nil
 }
+
+// gateExpired counts bounded waits for a close that ran out (per process)
+var gateExpired int
 
 func runGate(id int, c *gateCase) gateLine {
 	l := gateLine{Ev: "gate", ID: id, Side: c.Side, Cfg: c.Cfg, Hist: c.Hist, Obs: []gateStep{}}
@@ -208,7 +218,7 @@ func runGate(id int, c *gateCase) gateLine {
 	nf := 0
 	for k, name := range c.Hist {
 		hbh := uint32(100 + k)
-		if name == "cea_ok" || name == "cea_fail" {
+		if name == "cea_ok" || name == "cea_fail" || name == "cea_2002" {
 			hbh = cerHbH
 		}
 		if name == "dup_other" && pcA != nil {
@@ -226,9 +236,15 @@ func runGate(id int, c *gateCase) gateLine {
 			}
 			s.Conn.Feed(gateMsg(name, hbh))
 			s.Conn.WaitReaderBlocked(5 * time.Second)
-			if name == "cea_fail" {
+			if name == "cea_fail" || name == "cea_2002" {
 				// the dialling goroutine, not the reader, closes the transport after a failed CEA
-				s.Conn.WaitClosed(3 * time.Second)
+				d := 3 * time.Second
+				if gateExpired >= 10 { // a library that keeps such connections open has been found out: do not wait on
+					d = 20 * time.Millisecond
+				}
+				if !s.Conn.WaitClosed(d) {
+					gateExpired++
+				}
 			}
 		}
 		st := gateStep{Fired: []int{}, Wrote: []gateWrote{}}
